@@ -10,6 +10,8 @@ import (
 	"fmt"
 	"io"
 	"log"
+	"math/rand/v2"
+	"net"
 	"os"
 	"path/filepath"
 	"sort"
@@ -23,6 +25,7 @@ import (
 	"github.com/VKCOM/statshouse/internal/sqlite"
 	"github.com/VKCOM/statshouse/internal/vkgo/binlog/fsbinlog"
 	"github.com/VKCOM/statshouse/internal/zzverif/verifkit"
+	"github.com/VKCOM/tl/pkg/rpc"
 )
 
 // ---------------------------------------------------------------------------------------
@@ -82,6 +85,28 @@ func mdkOpen(dir, dbFile string, opt Options, chunk uint32) (*DBV2, error) {
 	return OpenDB(filepath.Join(dir, dbFile), opt, bl)
 }
 
+var mdkScratchN atomic.Int64
+
+// mdkScratch creates the per-history scratch directory under r.MkTmp and returns the path
+// to use for it plus a cleanup function.  fsbinlog derives the name of the next chunk by
+// splitting the *whole* path of the previous one at '.', so a rotation panics ("Can't
+// split by '.' on 3 parts") when any directory of the path contains a dot — and the
+// driver's scratch root is /verif/.build/….  The files stay under r.MkTmp; they are
+// addressed through a dot-free symlink in the system temp directory.
+func mdkScratch(r *verifkit.Run, prefix string) (string, func()) {
+	real := r.MkTmp(prefix)
+	if !strings.Contains(real, ".") {
+		return real, func() { _ = os.RemoveAll(real) }
+	}
+	link := filepath.Join(os.TempDir(), fmt.Sprintf("verif-md-%d-%d-%s", os.Getpid(), mdkScratchN.Add(1), strings.Trim(strings.ReplaceAll(prefix, ".", "_"), "-")))
+	_ = os.Remove(link)
+	if err := os.Symlink(real, link); err != nil || strings.Contains(link, ".") {
+		_ = os.Remove(link)
+		return real, func() { _ = os.RemoveAll(real) }
+	}
+	return link, func() { _ = os.Remove(link); _ = os.RemoveAll(real) }
+}
+
 func mdkCopyFile(src, dst string) error {
 	in, err := os.Open(src)
 	if err != nil {
@@ -104,17 +129,22 @@ func mdkAssumeSQLite(r *verifkit.Run) {
 	r.Assume("time is the virtual clock passed through Options.Now; the binlog is a real fsbinlog in a scratch directory (WriteCallDelay=0)")
 }
 
-// mdkJournalMode reads the journal mode actually in force (evidence for the assumption).
-func mdkJournalMode(db *DBV2) string {
-	mode := "?"
-	_ = db.eng.Do(context.Background(), "verif_journal_mode", func(conn sqlite.Conn, cache []byte) ([]byte, error) {
-		rows := conn.Query("verif_journal_mode", "SELECT * FROM pragma_journal_mode")
-		if rows.Next() {
-			mode, _ = rows.ColumnBlobString(0)
-		}
-		return cache, rows.Error()
-	})
-	return mode
+// mdkJournalMode reports the journal mode actually in force, from the files SQLite keeps
+// next to the database while the engine's write transaction is open (evidence for the
+// assumption; no SQL: a pragma statement left open on the engine's connection would
+// break its savepoints).
+func mdkJournalMode(dir, dbFile string) string {
+	p := filepath.Join(dir, dbFile)
+	_, errJ := os.Stat(p + "-journal")
+	_, errW := os.Stat(p + "-wal")
+	_, errW2 := os.Stat(p + "-wal2")
+	switch {
+	case errW == nil || errW2 == nil:
+		return "wal"
+	case errJ == nil:
+		return "rollback-journal"
+	}
+	return "unknown (no -journal, -wal or -wal2 file)"
 }
 
 // ---------------------------------------------------------------------------------------
@@ -288,6 +318,7 @@ type mdkPrediction struct {
 	NsID       int64
 	Judged     bool // false: the request is of a class the statement is silent about
 	Why        string
+	SelfName   bool // create flag on an existing predefined entity whose own name is "taken" by itself
 }
 
 // predict: success iff (edit names the current version) and the naming rules hold.
@@ -305,12 +336,18 @@ func (m *mdkModel) predict(op mdkSaveOp) mdkPrediction {
 		p.Judged = false
 		p.Why = "type-mismatch"
 	}
+	if op.ID < 0 && cur == nil && !op.Create && op.Typ == format.NamespaceEvent {
+		// "edit" of a predefined namespace that does not exist: other types are upserted, the
+		// statement does not say which is right
+		p.Judged = false
+		p.Why = "upsert-of-missing-predefined-namespace"
+	}
 	if op.Typ == format.NamespaceEvent && !op.Create {
 		// namespace edit: must address an existing namespace at its current version, same name
 		if cur == nil || cur.Typ != format.NamespaceEvent || cur.Ver != op.Ver {
 			p.Reason = "version"
 			if op.ID < 0 && cur == nil {
-				p.Reason = "unknown-namespace" // edit of a predefined namespace that does not exist
+				p.Reason = "unknown-namespace"
 			}
 			return p
 		}
@@ -318,6 +355,10 @@ func (m *mdkModel) predict(op mdkSaveOp) mdkPrediction {
 			p.Reason = "rename-namespace"
 			return p
 		}
+	} else if op.Typ == format.NamespaceEvent && !create && cur.Typ == format.NamespaceEvent && cur.Name != op.Name {
+		// create flag on an existing predefined namespace: it is an edit, and an edit may not rename
+		p.Reason = "rename-namespace"
+		return p
 	}
 	if op.Typ == format.MetricEvent || op.Typ == format.MetricsGroupEvent {
 		if ns, _ := format.SplitNamespace(op.Name); ns != "" {
@@ -330,9 +371,15 @@ func (m *mdkModel) predict(op mdkSaveOp) mdkPrediction {
 		}
 	}
 	if op.Create {
-		if m.byTypeName(op.Typ, op.Name) != nil {
-			p.Reason = "exists"
-			return p
+		if e := m.byTypeName(op.Typ, op.Name); e != nil {
+			if !create && e.ID == cur.ID {
+				// create flag on an existing predefined entity that keeps its name: by the statement
+				// the name is not taken by anybody else
+				p.SelfName = true
+			} else {
+				p.Reason = "exists"
+				return p
+			}
 		}
 	}
 	if !create {
@@ -379,6 +426,227 @@ func (m *mdkModel) apply(op mdkSaveOp, ev tlmetadata.Event, willCreate bool) *md
 	h.Renamed = renamed
 	m.hist[ev.Id] = append(m.hist[ev.Id], h)
 	return e
+}
+
+// ---------------------------------------------------------------------------------------
+// request generator shared by C15 and C16
+
+var mdkTypes = []int32{format.MetricEvent, format.MetricEvent, format.MetricsGroupEvent, format.DashboardEvent, format.NamespaceEvent, format.PromConfigEvent}
+
+// mdkGen produces requests aimed at the rules (the model is only consulted to aim them).
+type mdkGen struct {
+	rnd   *rand.Rand
+	m     *mdkModel
+	seq   int
+	names []string
+}
+
+func (g *mdkGen) freshName() string {
+	g.seq++
+	base := fmt.Sprintf("x%d", g.seq)
+	switch g.rnd.IntN(12) {
+	case 0:
+		return base + " 'q\" ;--"
+	case 1:
+		return "имя-" + base
+	case 2:
+		return base + strings.Repeat("y", 300)
+	case 3:
+		return ":" + base // empty namespace part
+	}
+	return base
+}
+
+func (g *mdkGen) poolName() string { return g.names[g.rnd.IntN(len(g.names))] }
+
+func (g *mdkGen) nsPrefix() string {
+	// an existing namespace, a never created one, or one that looks like a metric name
+	var ns []string
+	for _, id := range g.m.sortedIDs() {
+		if e := g.m.ents[id]; e.Typ == format.NamespaceEvent {
+			ns = append(ns, e.Name)
+		}
+	}
+	if len(ns) > 0 && g.rnd.IntN(4) != 0 {
+		return ns[g.rnd.IntN(len(ns))]
+	}
+	return []string{"nowhere", "n0", "nsA", "nsB"}[g.rnd.IntN(4)]
+}
+
+func (g *mdkGen) name(typ int32) string {
+	var n string
+	switch g.rnd.IntN(10) {
+	case 0, 1:
+		n = g.freshName()
+	default:
+		n = g.poolName()
+	}
+	if typ == format.NamespaceEvent && g.rnd.IntN(2) == 0 {
+		n = []string{"nsA", "nsB", "nsC"}[g.rnd.IntN(3)]
+	}
+	if (typ == format.MetricEvent || typ == format.MetricsGroupEvent) && g.rnd.IntN(3) == 0 {
+		n = g.nsPrefix() + format.NamespaceSeparator + n
+	}
+	return n
+}
+
+func (g *mdkGen) pick() *mdkEnt {
+	ids := g.m.sortedIDs()
+	if len(ids) == 0 {
+		return nil
+	}
+	return g.m.ents[ids[g.rnd.IntN(len(ids))]]
+}
+
+func (g *mdkGen) next(now int64, allowMismatch bool) mdkSaveOp {
+	g.seq++
+	op := mdkSaveOp{Data: fmt.Sprintf(`{"op":%d}`, g.seq), Meta: fmt.Sprintf(`{"who":"u%d"}`, g.rnd.IntN(3))}
+	if g.rnd.IntN(10) == 0 {
+		op.Meta = ""
+	}
+	e := g.pick()
+	k := g.rnd.IntN(100)
+	switch {
+	case e == nil || k < 22:
+		op.Class = "create"
+		op.Create = true
+		op.Typ = mdkTypes[g.rnd.IntN(len(mdkTypes))]
+		op.Name = g.name(op.Typ)
+		if g.rnd.IntN(8) == 0 {
+			op.ID, op.Ver = int64(g.rnd.IntN(20)), int64(g.rnd.IntN(20)) // ignored by a create
+		}
+		if g.rnd.IntN(12) == 0 {
+			op.Del = uint32(now) // created deleted
+		}
+	case k < 30:
+		// predefined entity: caller-chosen negative id, create flag arbitrary
+		op.Class = "predefined"
+		op.ID = -int64(1 + g.rnd.IntN(4))
+		op.Create = g.rnd.IntN(2) == 0
+		op.Typ = []int32{format.MetricEvent, format.MetricsGroupEvent, format.NamespaceEvent}[g.rnd.IntN(3)]
+		op.Name = g.name(op.Typ)
+		if cur := g.m.ents[op.ID]; cur != nil {
+			op.Typ, op.Ver = cur.Typ, cur.Ver
+			if g.rnd.IntN(3) != 0 {
+				op.Name = cur.Name
+			}
+			if g.rnd.IntN(4) == 0 {
+				op.Ver -= int64(1 + g.rnd.IntN(2))
+			}
+		} else {
+			op.Ver = int64(g.rnd.IntN(3))
+		}
+	case k < 34:
+		op.Class = "edit-unknown-id"
+		op.ID, op.Ver, op.Typ, op.Name = int64(1000+g.rnd.IntN(50)), int64(g.rnd.IntN(30)), mdkTypes[g.rnd.IntN(len(mdkTypes))], g.poolName()
+	default:
+		op.ID, op.Ver, op.Typ, op.Name, op.Del = e.ID, e.Ver, e.Typ, e.Name, e.Del
+		switch j := g.rnd.IntN(100); {
+		case j < 30:
+			op.Class = "edit"
+		case j < 42:
+			op.Class = "edit-stale"
+			op.Ver -= int64(1 + g.rnd.IntN(3))
+			if g.rnd.IntN(4) == 0 {
+				op.Ver = 0
+			}
+		case j < 48:
+			op.Class = "edit-future"
+			op.Ver += int64(1 + g.rnd.IntN(3))
+		case j < 53:
+			op.Class = "edit-version-of-other"
+			if o := g.pick(); o != nil {
+				op.Ver = o.Ver
+			}
+		case j < 80:
+			op.Class = "rename"
+			op.Name = g.name(e.Typ)
+			if g.rnd.IntN(5) == 0 {
+				op.Ver -= int64(1 + g.rnd.IntN(2))
+				op.Class = "rename-stale"
+			}
+		case j < 90:
+			op.Class = "delete"
+			op.Del = uint32(now)
+		case j < 95:
+			op.Class = "undelete"
+			op.Del = 0
+		default:
+			op.Class = "edit"
+			if allowMismatch {
+				op.Class = "type-mismatch"
+				op.Typ = mdkTypes[g.rnd.IntN(len(mdkTypes))]
+				if g.rnd.IntN(2) == 0 {
+					op.Name = g.name(op.Typ)
+				}
+			}
+		}
+	}
+	return op
+}
+
+func mdkOpString(op mdkSaveOp) string {
+	n := op.Name
+	if len(n) > 40 {
+		n = fmt.Sprintf("%s…(%d)", n[:20], len(n))
+	}
+	return fmt.Sprintf("%s{%s %q id=%d ver=%d create=%v del=%d}", op.Class, mdkTypName(op.Typ), n, op.ID, op.Ver, op.Create, op.Del)
+}
+
+
+// ---------------------------------------------------------------------------------------
+// the real RPC surface: Handler behind a tl rpc.Server on a loopback port, real client
+
+type mdkServer struct {
+	Client  *tlmetadata.Client
+	Handler *Handler
+	srv     *rpc.Server
+	ln      net.Listener
+	done    chan struct{}
+}
+
+func mdkServe(db *DBV2) (*mdkServer, error) {
+	quiet := func(string, ...interface{}) {}
+	handler := NewHandler(db, "verif", "", quiet)
+	proxy := ProxyHandler{}
+	h := tlmetadata.Handler{
+		RawGetMapping:          proxy.HandleProxy("", handler.RawGetMappingByValue),
+		RawGetInvertMapping:    proxy.HandleProxy("", handler.RawGetMappingByID),
+		RawEditEntitynew:       proxy.HandleProxy("", handler.RawEditEntity),
+		RawGetEntity:           proxy.HandleProxy("", handler.RawGetEntity),
+		RawGetHistoryShortInfo: proxy.HandleProxy("", handler.RawGetHistory),
+		RawPutMapping:          proxy.HandleProxy("", handler.RawPutMapping),
+		RawResetFlood:          proxy.HandleProxy("", handler.RawResetFlood),
+		ResetFlood2:            HandleProxyGen(&proxy, "", handler.ResetFlood2),
+	}
+	sh := tlmetadata.Handler{
+		RawGetJournalnew:  proxy.HandleProxy("", handler.RawGetJournal),
+		RawGetNewMappings: proxy.HandleProxy("", handler.RawGetNewMappings),
+	}
+	srv := rpc.NewServer(rpc.ServerWithHandler(h.Handle), rpc.ServerWithSyncHandler(sh.Handle), rpc.ServerWithLogf(quiet))
+	ln, err := net.Listen("tcp4", "127.0.0.1:0")
+	if err != nil {
+		return nil, err
+	}
+	s := &mdkServer{Handler: handler, srv: srv, ln: ln, done: make(chan struct{})}
+	go func() {
+		defer close(s.done)
+		_ = srv.Serve(ln)
+	}()
+	s.Client = &tlmetadata.Client{
+		Client:  rpc.NewClient(rpc.ClientWithProtocolVersion(rpc.LatestProtocolVersion), rpc.ClientWithLogf(quiet)),
+		Network: "tcp4",
+		Address: ln.Addr().String(),
+	}
+	return s, nil
+}
+
+func (s *mdkServer) Close() {
+	if c, ok := s.Client.Client.(interface{ Close() error }); ok {
+		_ = c.Close()
+	}
+	_ = s.srv.Close()
+	<-s.done
 }
 
 // ---------------------------------------------------------------------------------------
